@@ -1,5 +1,6 @@
 import AiutiVerif.Core.Wire
 import AiutiVerif.Buffer.Model
+import AiutiVerif.Buffer.RestDef
 /-! Driver glue for the buffer model. -/
 namespace AiutiVerif.Buffer
 open AiutiVerif.Wire
@@ -45,7 +46,7 @@ def drive (fs : List (String × String)) : String :=
     match outcomes?, ins? with
     | some outcomes, some ins =>
       let s := runProgram { T := T, outcomes := outcomes } ins
-      s!"tie={if s.tie then 1 else 0} ended={if s.daemonEnded then 1 else 0} phase={s.shutdownPhase} pendingwaits=" ++ showNats ((s.joiners ++ s.flaggers).map (·.id)) ++
+      s!"tie={if s.tie then 1 else 0} ended={if s.daemonEnded then 1 else 0} phase={s.shutdownPhase} rest={if atRest s then 1 else 0} pendingwaits=" ++ showNats ((s.joiners ++ s.flaggers).map (·.id)) ++
         " undelivered=" ++ showNats (sortNat s.inputs) ++
         " outs=" ++ ";".intercalate (s.outs.map encOut)
     | _, _ => "bad-op"
